@@ -93,3 +93,43 @@ Theorem C01_build_total : forall c caps cmin,
   wf_netlist c -> (0 < cmin)%N -> List.length (c_lines c) <= List.length caps ->
   exists so, build c caps cmin false false = Some so.
 Proof. exact KV.Proofs.EndToEnd.build_total. Qed.
+
+(** MULTI-CYCLE (LogicSim.cycle = s_to_c; c_prop; c_to_s; s_ppo_to_ppi, k times), at line level.  [line_cycles] (Model/CycleSem.v,
+    the function evaluated against LogicSim.cycle in the correspondence check) iterates: execute the scheduler's op list from the
+    assignment vector, capture the line at input pin 0 of every port / state element into the result vector, copy the result
+    entries of all state elements (flip-flops and latches alike) into the assignment vector.  [iter_sem] is the netlist's
+    synchronous semantics: the same iteration over ANY valuation that satisfies every node's equation. *)
+From KV Require Import Model.CycleSem.
+From KV Require Proofs.CycleProofs.
+Theorem C01_cycles_iter_sem : forall V (sem : N -> V -> V -> V -> V -> V) (zero : V) c k s0 s1,
+  wf_netlist c -> comb_acyclic c ->
+  iter_sem sem zero c k s0 s1 (fst (line_cycles sem zero c k (s0, s1))) (snd (line_cycles sem zero c k (s0, s1))).
+Proof. intros V sem zero. exact (KV.Proofs.CycleProofs.cycles_iter_sem sem zero). Qed.
+
+(* ... and the semantics determines both vectors: after k cycles they EQUAL the scheduler-based iteration *)
+Theorem C01_cycles_are_iter_sem : forall V (sem : N -> V -> V -> V -> V -> V) (zero : V) c k s0 s1 a b,
+  wf_netlist c -> comb_acyclic c -> KV.Proofs.EndToEnd.gates_known c ->
+  (iter_sem sem zero c k s0 s1 a b <-> (a, b) = line_cycles sem zero c k (s0, s1)).
+Proof. intros V sem zero. exact (KV.Proofs.CycleProofs.cycles_are_iter_sem sem zero). Qed.
+
+(* one step spelled out: result entry and next state of s_node p = the solution's value at the line on its input pin 0;
+   ports keep their assigned value *)
+Theorem C01_cycle_next_state : forall V (sem : N -> V -> V -> V -> V -> V) (zero : V) c s0 s1 v p l0,
+  wf_netlist c -> comb_acyclic c -> KV.Proofs.EndToEnd.gates_known c -> solution sem zero c (stim_of zero s0) v ->
+  snode_in c p = Some l0 ->
+  nth p (snd (line_cycle sem zero c (s0, s1))) zero = v l0 /\
+  (List.length (c_io c) <= p -> nth p (fst (line_cycle sem zero c (s0, s1))) zero = v l0) /\
+  (p < List.length (c_io c) -> nth p (fst (line_cycle sem zero c (s0, s1))) zero = nth p s0 zero).
+Proof. intros V sem zero. exact (KV.Proofs.CycleProofs.cycle_next_state sem zero). Qed.
+
+(* executable test of gates_known *)
+Theorem C01_gates_known_b_sound : forall c, KV.Proofs.CycleProofs.gates_known_b c = true -> KV.Proofs.EndToEnd.gates_known c.
+Proof. exact KV.Proofs.CycleProofs.gates_known_b_sound. Qed.
+
+(* a flip-flop / latch WITHOUT a data line (no PPO slot): c_to_s never writes its result entry and s_ppo_to_ppi copies that
+   entry, so with the result vector initialised to 0 (LogicSim.__init__) its state is 0 from the first cycle on *)
+Theorem C01_cycles_no_data_line : forall V (sem : N -> V -> V -> V -> V -> V) (zero : V) c p k s0 s1,
+  p < List.length (s_nodes c) -> List.length (c_io c) <= p -> snode_in c p = None -> nth p s1 zero = zero ->
+  nth p (snd (line_cycles sem zero c k (s0, s1))) zero = zero /\
+  (1 <= k -> nth p (fst (line_cycles sem zero c k (s0, s1))) zero = zero).
+Proof. intros V sem zero. exact (KV.Proofs.CycleProofs.cycles_no_data_line sem zero). Qed.
